@@ -1,4 +1,4 @@
-CONSTANTS CacheMode = "none"  MaxOuts = 4  SessionLen = 3
+CONSTANTS CacheMode = "none"  MaxOuts = 4  StartLists = {1}  ListIds = {1, 2, 3, 4, 5, 6}  SessionLen = 3
 SPECIFICATION RSpec
-INVARIANTS HistoryIndependent Shape
+INVARIANTS HistoryIndependent Shape SurplusNeverCounted
 CHECK_DEADLOCK FALSE
